@@ -82,6 +82,14 @@ struct Probe<'a> {
 
 impl<'a> Probe<'a> {
     fn panic(&mut self, stage: &str, s: &str, p: &str) {
+        if p.contains(drive::BOUND_PANIC) {
+            // the harness's own non-termination guard: the enumerator does not advance, which is C02/C08's subject;
+            // whether the parsed value is usable cannot be told from a run that never ends
+            if self.report.inconclusive.len() < 3 {
+                self.report.inconclusive(format!("{} on '{}': {}", stage, clip(s), p));
+            }
+            return;
+        }
         if self.which == Which::C09 {
             self.report.violate(format!("{}:panic@{}", stage, panic_site(p)), format!("{} panics on '{}': {}", stage, clip(s), p), case_of(s));
         } else {
@@ -233,6 +241,7 @@ impl<'a> Probe<'a> {
     fn evaluate(&mut self, s: &str, range: &HandRange) {
         let flop = [28u8 + 3, 40 + 2, 48 + 1]; // 7c 4d 2h
         let board = drive::board_of(&flop);
+        drive::reset_budget();
         let n = range.card_pairs().len();
         // (players, from, to): small ranges are drained completely (every board), larger ones on
         // short scopes scattered over the deck, so that no card is blocked in all of them
@@ -264,6 +273,7 @@ impl<'a> Probe<'a> {
             let mut bad: Option<String> = None;
             let mut seen = 0u64;
             let r = catch(|| {
+                crate::drive::allow(&players);
                 let mut e = FlopExhaustiveEvaluator::new(&board, &players);
                 e.scope(from.0, from.1, to.0, to.1);
                 for sd in e {
